@@ -219,6 +219,11 @@ func init() {
 					}
 					ops = append(ops, world.Op{K: world.KUndelegateAll, D: p.D, V: p.V, Denom: "aaa", Args: map[string]string{"plus": "1"}, Class: ClsUser})
 					ops = append(ops, world.Op{K: world.KUndelegateAll, D: p.D, V: p.V, Denom: "aaa", Args: map[string]string{"plus": "-1"}, Class: ClsUser})
+					if p.Reported.GT(mi("100000")) {
+						// large positions: leave a remainder of a few units behind (relative windows must not swallow it)
+						ops = append(ops, world.Op{K: world.KUndelegateAll, D: p.D, V: p.V, Denom: "aaa", Args: map[string]string{"plus": "-7"}, Class: ClsUser})
+						ops = append(ops, world.Op{K: world.KRedelegateAll, D: p.D, V: p.V, V2: 1 - p.V, Denom: "aaa", Args: map[string]string{"plus": "-5"}, Class: ClsUser})
+					}
 				}
 				return ops
 			}
@@ -233,6 +238,8 @@ func init() {
 			s3 := []world.Op{opDel(0, 0, "aaa", "1000"), opDel(1, 1, "aaa", "1000"), opBlock(7), opBlock(1), opSlash(1, "0.5"), opBlock(3), opBlock(1)}
 			s4 := []world.Op{opDel(0, 0, "aaa", big30), opDel(1, 1, "aaa", "3"), opBlock(3), opBlock(1), opSlash(0, "0.333333333333333333")}
 			s5 := []world.Op{opDel(0, 0, "aaa", "3"), opDel(1, 1, "aaa", big30), opBlock(3), opBlock(1)}
+			// medium magnitude (1e7): tolerance is still 1 unit, positions large enough for relative effects
+			s6 := []world.Op{opDel(0, 0, "aaa", "10000000"), opDel(1, 0, "aaa", "10000000"), opDel(1, 1, "aaa", "3000000"), opBlock(3), opBlock(1)}
 			mk := func(name string, al Alpha, seeds [][]world.Op, budgets []int, depth int) *engine.Scenario {
 				return &engine.Scenario{
 					Property: "C04", Name: name, Cfg: world.DefaultConfig(), Stores: world.ModuleStores,
@@ -243,12 +250,12 @@ func init() {
 			}
 			if tier == "thorough" {
 				return []*engine.Scenario{
-					mk("c04-small", alAll, [][]world.Op{s1, s2, s3, nil}, []int{5, 1, 0, 1, 0}, 6),
+					mk("c04-small", alAll, [][]world.Op{s1, s2, s3, nil, s6}, []int{5, 1, 0, 1, 0}, 6),
 					mk("c04-magnitude", mag, [][]world.Op{s4, s5}, []int{5, 0, 0, 0, 0}, 5),
 				}
 			}
 			return []*engine.Scenario{
-				mk("c04-small", alAll, [][]world.Op{s1, s2, s3, nil}, []int{3, 1, 0, 1, 0}, 3),
+				mk("c04-small", alAll, [][]world.Op{s1, s2, s3, nil, s6}, []int{3, 1, 0, 1, 0}, 3),
 				mk("c04-magnitude", mag, [][]world.Op{s4, s5}, []int{4, 0, 0, 0, 0}, 4),
 			}
 		},
